@@ -10,9 +10,10 @@ Import ListNotations.
 (* ---------- the property at full strength (statements) ----------
    [fun2core_correct_statement]: for every annotated (type-checked) program inside the property's
    precondition, every terminating defined run of the source is reproduced by the Core machine on the
-   translated program.  FALSE of the faithful model: before fix d5d4151 by variable capture
-   (C02_fun2core_capture_refuted_before_fix below), and still by a call whose target is main
-   (C02_fun2core_call_to_main_refuted, whose witness is also inside this precondition). *)
+   translated program.  It WAS false of the faithful model: before fix d5d4151 by variable capture
+   (C02_fun2core_capture_refuted_before_fix below), and before fix <commitmain> by a call whose target is main
+   (C02_fun2core_call_to_main_refuted_before_fix, whose witness is also inside this precondition).  No counterexample
+   to the current translation is known; proved is C02_fun2core_correct_fragment2. *)
 Definition fun2core_correct_statement : Prop :=
   forall (p : fcprog) (c : cprog) (args : list Z) (n : nat) (o : obs),
     annotated_fcprog p = true -> effect_sequenced p = true ->
@@ -56,27 +57,44 @@ Theorem C02_capture_witness_fixed :
 Proof. exact capture_witness_fixed_lemma. Qed.
 Print Assumptions C02_capture_witness_fixed.
 
-(* ---------- refuted: the BARENDREGT-GUARDED statement fails as well (known finding call-to-main) ----------
-   compile_main gives the Core definition `main` no return-continuation parameter (its body ends in
-   `exit`) while every call site passes args ++ [continuation]: a program that calls `main` (witness
-   corpus/fun/call_main_nontail.sc, tied to the real checker's output by modelrun; it satisfies the
-   Barendregt guard and the syntactic capture detector does not fire) prints 3, 107 and returns 8 by the
-   source semantics; its translation is stuck "call-arity" on the Core machine (natively the inner main
-   exits the process with status 7).  Hence ~ fun2core_correct_guarded_statement; the preservation
-   theorems below carry the additional guard [calls_main_prog p = false]. *)
-Theorem C02_fun2core_call_to_main_refuted :
+(* ---------- REPAIRED (fix <commitmain> of /repo): a call whose target is main (former finding call-to-main) ----------
+   REGRESSION statements about the translation before the fix ([compile_prog_before_fix]): compile_main gave the Core
+   definition `main` no return-continuation parameter (its body ends in `exit`) while every call site passes
+   args ++ [continuation]: a program that calls `main` (witness corpus/fun/call_main_nontail.sc, tied to the real
+   checker's output by modelrun; it satisfies the Barendregt guard and the syntactic capture detector does not fire)
+   prints 3, 107 and returns 8 by the source semantics; its OLD translation was stuck "call-arity" on the Core machine
+   (natively the inner main exited the process with status 7).  Hence the Barendregt-guarded statement was false of
+   the old translation too.  The repaired compile_prog: when main is called somewhere, main is translated like any
+   other definition (with a return continuation) and the program starts at a fresh label
+   def main<n>(params) { main(params, mu~x. exit x) }. *)
+Theorem C02_fun2core_call_to_main_refuted_before_fix :
   exists (p : fcprog) (args : list Z) (c : cprog) (n : nat),
     annotated_fcprog p = true /\ effect_sequenced p = true /\ barendregt p = true /\
     shadowing_risk_prog p = false /\ calls_main_prog p = true /\
-    compile_prog p = Ok c /\
+    compile_prog_before_fix p = Ok c /\
     defined (run_fun n p args) = true /\
     run_fun n p args <> run_core n c args.
-Proof. exact fun2core_call_to_main_refuted_lemma. Qed.
-Print Assumptions C02_fun2core_call_to_main_refuted.
+Proof. exact fun2core_call_to_main_before_fix_lemma. Qed.
+Print Assumptions C02_fun2core_call_to_main_refuted_before_fix.
 
-Theorem C02_fun2core_guarded_statement_refuted : ~ fun2core_correct_guarded_statement.
-Proof. exact fun2core_guarded_statement_refuted_lemma. Qed.
-Print Assumptions C02_fun2core_guarded_statement_refuted.
+Theorem C02_fun2core_guarded_statement_refuted_before_fix :
+  ~ (forall (p : fcprog) (c : cprog) (args : list Z) (n : nat) (o : obs),
+       annotated_fcprog p = true -> effect_sequenced p = true ->
+       barendregt p = true ->
+       compile_prog_before_fix p = Ok c ->
+       run_fun n p args = o -> defined o = true ->
+       exists m, run_core m c args = o).
+Proof. exact fun2core_guarded_statement_refuted_before_fix_lemma. Qed.
+Print Assumptions C02_fun2core_guarded_statement_refuted_before_fix.
+(* ... the repaired translation of the witness: entry point main0, then main with a return continuation; it runs like
+   the source *)
+Theorem C02_call_main_witness_fixed :
+  compile_prog call_main_witness = Ok (compiled_or_empty call_main_witness) /\
+  run_core 200 (compiled_or_empty call_main_witness) [3%Z] = run_fun 200 call_main_witness [3%Z] /\
+  run_fun 200 call_main_witness [3%Z] = ([(true, 3%Z); (true, 107%Z)], OExit 8%Z) /\
+  map cdname (cpdefs (compiled_or_empty call_main_witness)) = [new_id "main0"; new_id "main"].
+Proof. exact call_main_witness_fixed_lemma. Qed.
+Print Assumptions C02_call_main_witness_fixed.
 
 (* REPAIRED defect (fix commit 126604b of /repo), kept as regression statements.  Before the fix the
    target covariable of `goto k (t)` was typed with the annotation of the goto expression instead of
@@ -185,6 +203,7 @@ Theorem C02_fun2core_correct_partial :
     NoDup (map fdname (fcpdefs p)) ->
     ffind_def p "main" = Some d ->
     islf (fdbody d) = true ->
+    calls_main_prog p = false ->         (* since fix <commitmain>: no OTHER definition calls main (main itself has no calls) *)
     run_fun n p args = o -> snd o <> OOutOfFuel ->
     exists m, run_core m c args = o.
 Proof. exact fun2core_correct_partial_lemma. Qed.
